@@ -413,6 +413,16 @@ void execute_queue(const Plan &plan, Verdict &v, Mode mode) {
             }
             if (armed.clear) {
                 // the queue is cleared from inside the transmit path (e.g. a device-clear arriving on another channel)
+#if SIM_HEAP
+                // not when the clear would release queued texts AND a refilling error callback pushes right after it, while
+                // SYST:ERR? still holds the older text it took out: the ring heap needs texts released in allocation order
+                // (DESIGN 6b, "seen, not claimed"). A clear of a queue without texts, or without a refill, is fine.
+                if (refill_left > 0) {
+                    bool texts = false;
+                    for (auto &e : run.q) texts |= e.may_text;
+                    if (texts) return;
+                }
+#endif
                 run.q.clear();
                 ww.fw_clear();
                 COUNT("fault_clear_inside_write_callback");
@@ -548,9 +558,6 @@ void execute_queue(const Plan &plan, Verdict &v, Mode mode) {
                 armed.text = op.s;
                 armed.clear = false;
             } else if (op.kind == "wrclear") {
-                // not together with a refilling error callback: the clear would then be followed by a push while SYST:ERR? still
-                // holds the text it took out, i.e. texts would be released out of allocation order (see DESIGN 6b, "seen, not claimed")
-                if (plan.k("errcb_refill", 0) != 0) continue;
                 armed.on = true;
                 armed.countdown = clampl(op.arg(0), 0, 12);
                 armed.clear = true;
@@ -624,6 +631,13 @@ std::string gen_text(Rng &r, long idx, long maxlen, bool quotes) {
     if (quotes && !s.empty()) {
         long nq = r.range(0, 3);
         for (long i = 0; i < nq; i++) s[r.below(s.size())] = '"';
+    }
+    if (!s.empty() && r.chance(1, 6)) {
+        // file names and messages in the instrument's own language: bytes >= 0x80 (UTF-8, Latin-1), among them the ones
+        // whose low seven bits are a quote, a semicolon or a comma
+        static const unsigned char hi[] = {0xA2, 0xC3, 0xA2, 0xBB, 0xAC, 0xB0, 0xE2, 0x84, 0xFF, 0x80, 0xA2};
+        long nh = r.range(1, 4);
+        for (long i = 0; i < nh; i++) s[r.below(s.size())] = (char) (r.chance(1, 2) ? hi[r.below(sizeof hi)] : (unsigned char) r.range(0x80, 0xFF));
     }
     return s;
 }
@@ -788,7 +802,7 @@ void generate_queue(Rng &r, const GenOpts &g, Plan &p, Mode mode) {
                 p.ops.push_back(Op("msg", {}, gen_queue_msg(r, uniq)));
                 break;
             default:
-                if (p.k("errcb_refill", 0) == 0 && r.chance(1, 20)) p.ops.push_back(Op("wrclear", {(long) r.below(7)}));
+                if (r.chance(1, 20)) p.ops.push_back(Op("wrclear", {(long) r.below(7)}));
                 else if (r.chance(1, 5)) {
                     if (r.chance(1, 4))
                         p.ops.push_back(Op("wrpush", {(long) r.below(7), (long) gen_code(r), 0}));
